@@ -130,6 +130,14 @@ def guarded_class():
             name = getattr(ob, 'name', None)
             if isinstance(ob, (list, tuple)):
                 name = 'builtin'
+            if isinstance(index, slice):
+                # a slice is refused when it covers a refused element
+                n = len(ob)
+                for k in range(*index.indices(n)):
+                    if (name, k) in self.deny_item or \
+                            ('*', k) in self.deny_item:
+                        raise Unauthorized('slice over item %d' % k)
+                return ob[index]
             if (name, index) in self.deny_item or \
                     ('*', index) in self.deny_item:
                 raise Unauthorized('item %r' % (index,))
@@ -371,6 +379,15 @@ def channels():
         index_expr=True)
     add('expr-item-list', '[<dtml-var "lst[{I}].pub">]', kind='item',
         index_expr=True, seqname='builtin')
+    # slices in expressions are reads of every element they cover
+    add('expr-slice-list', '[<dtml-in "lst[:4]"><dtml-var pub>;</dtml-in>]',
+        kind='item', seqname='builtin')
+    add('expr-slice-custom', '[<dtml-in "s[1:]"><dtml-var pub>;</dtml-in>]',
+        kind='item')
+    add('expr-slice-step', '[<dtml-in "lst[::2]"><dtml-var pub>;</dtml-in>]',
+        kind='item', seqname='builtin')
+    add('expr-slice-let', '[<dtml-let q="lst[:]"><dtml-in q><dtml-var pub>;'
+        '</dtml-in></dtml-let>]', kind='item', seqname='builtin')
     add('expr-item-map', '[<dtml-var "dm[\'k{I}\']">]', kind='item',
         index_expr=True, seqname='dm', mapkey=True)
     add('expr-item-dict', '[<dtml-var "dd[\'k{I}\']">]', kind='item',
